@@ -375,6 +375,10 @@ theorem consumeOptX_tot (tg : Target) (htg : TgIn strs tg) (os : String) (ex : O
         | opt o =>
           unfold lastAction
           dsimp only
+          by_cases hdd : (toks == ["--"]) = true
+          · simp only [hdd, if_true]
+            exact ⟨Tot.cli, fun st' run'' h => by simp at h⟩
+          simp only [hdd, Bool.false_eq_true, if_false]
           rcases takeAction_tot bind G hb o (hg o g2) (toks.erase "--") st1 with ⟨st2, h2'⟩ | h2' | h2'
           · rw [h2']
             refine ⟨Tot.ok _, fun st' run'' h => ?_⟩
